@@ -782,6 +782,9 @@ fn analyse(case: &Case, ob: &Observed, rep: &mut CaseReport) {
 }
 
 fn run_one_case(spec: &str) -> CaseReport {
+    if let Some(l) = spec.lines().find(|l| l.starts_with("mt ")) {
+        return run_mt_case(l);
+    }
     let mut rep = CaseReport::default();
     let Some(case) = Case::from_lines(spec.lines()) else {
         rep.line("cfg", "bad-case");
@@ -1099,6 +1102,406 @@ fn fixed_cases() -> Vec<Case> {
 }
 
 // ------------------------------------------------------------------------------------------
+// run `mt`: one client, many concurrent tasks, real multi-thread runtime (oracle only)
+// ------------------------------------------------------------------------------------------
+//
+// The paused current_thread runs above cannot show anything that needs two threads inside the
+// client at once.  Here ONE client machine runs on `multi_thread(workers)`:
+//   phase 1  the `warm` names are resolved one after the other (each: one query on the wire);
+//   phase 2  `readers` tasks look the warm names up over and over (every one of these lookups is
+//            "a further lookup after a successful resolution": answered from the cache, nothing
+//            on the wire) WHILE `resolvers` tasks resolve a stream of `fresh` names, each exactly
+//            once (every completion inserts into the cache the readers are reading) and then look
+//            their name up three more times.
+// Oracle (frame log of the network hook + what the calls returned; no clock involved):
+//   * every lookup returns the registered address;
+//   * per name exactly one query frame, i.e. no query frame for a name after its first
+//     successful resolution.
+// The run ends when the resolvers are through (however long that takes on a loaded machine);
+// a wall-clock guard of 100 s only turns a hang into an outcome.
+
+#[derive(Clone, Debug)]
+struct MtCase {
+    workers: usize,
+    warm: usize,
+    fresh: usize,
+    readers: usize,
+    resolvers: usize,
+    lat: u64,
+    seed: u64,
+    /// > 0: the resolver tasks start each of their lookups together (a barrier of `resolvers`
+    /// tasks): lookups of one machine that begin in the same instant on different threads
+    lockstep: bool,
+}
+
+impl MtCase {
+    fn to_line(&self) -> String {
+        format!("mt workers={} warm={} fresh={} readers={} resolvers={} lat={} seed={}{}", self.workers, self.warm, self.fresh, self.readers, self.resolvers, self.lat, self.seed, if self.lockstep { " lockstep=1" } else { "" })
+    }
+    fn parse(line: &str) -> Option<MtCase> {
+        let mut c = MtCase { workers: 4, warm: 64, fresh: 100, readers: 4, resolvers: 3, lat: 0, seed: 1, lockstep: false };
+        let mut w = line.split_whitespace();
+        if w.next()? != "mt" {
+            return None;
+        }
+        for kv in w {
+            let (k, v) = kv.split_once('=')?;
+            match k {
+                "workers" => c.workers = v.parse().ok()?,
+                "warm" => c.warm = v.parse().ok()?,
+                "fresh" => c.fresh = v.parse().ok()?,
+                "readers" => c.readers = v.parse().ok()?,
+                "resolvers" => c.resolvers = v.parse().ok()?,
+                "lat" => c.lat = v.parse().ok()?,
+                "seed" => c.seed = v.parse().ok()?,
+                "lockstep" => c.lockstep = v == "1",
+                _ => {}
+            }
+        }
+        if c.lockstep && 2 * c.resolvers > c.workers {
+            return None;
+        }
+        if c.workers == 0 || c.warm == 0 || c.readers == 0 || c.resolvers == 0 || c.resolvers > 8 || c.warm + c.fresh > 15000 {
+            // more than 10 queries pending at the server is F-C20-3, 16 384 sockets F-C20-4
+            return None;
+        }
+        Some(c)
+    }
+    fn warm_name(&self, i: usize) -> String {
+        format!("w{:03}.s{}.warm.example", i, self.seed % 1000)
+    }
+    fn fresh_name(&self, i: usize) -> String {
+        format!("f{:05}.s{}.fresh.example", i, self.seed % 1000)
+    }
+    fn addr_of(&self, name: &str) -> [u8; 4] {
+        let h = name.bytes().fold(self.seed.wrapping_mul(0x9e3779b97f4a7c15), |h, b| (h ^ b as u64).wrapping_mul(0x100000001b3));
+        [10 + (h >> 40) as u8 % 200, (h >> 16) as u8, (h >> 8) as u8, h as u8]
+    }
+}
+
+struct MtShared {
+    case: MtCase,
+    log: Arc<Log>,
+    done: Notify,
+    next_fresh: AtomicUsize,
+    arrived: AtomicUsize,
+    stop: std::sync::atomic::AtomicBool,
+    lookups: std::sync::atomic::AtomicU64,
+    /// lookups that did not return the registered address: (name, what came back)
+    wrong: Mutex<Vec<(String, String)>>,
+    n_wrong: AtomicUsize,
+}
+
+impl MtShared {
+    async fn lookup(&self, dns: &Arc<DnsClient>, machine: &Arc<Machine>, name: &str) -> bool {
+        let r = dns.get_host_by_name(name.to_string(), machine.clone()).await;
+        self.lookups.fetch_add(1, Ordering::Relaxed);
+        let want = self.case.addr_of(name);
+        match r {
+            Ok(a) if a.to_bytes() == want => true,
+            other => {
+                self.n_wrong.fetch_add(1, Ordering::SeqCst);
+                let mut w = self.wrong.lock().unwrap();
+                if w.len() < 8 {
+                    w.push((name.to_string(), match other {
+                        Ok(a) => fmt_ip(a.to_bytes()),
+                        Err(DnsClientError::Cache) => "err:Cache".into(),
+                        Err(DnsClientError::Other) => "err:Other".into(),
+                    }));
+                }
+                false
+            }
+        }
+    }
+}
+
+struct MtDriver {
+    sh: Arc<MtShared>,
+}
+
+#[async_trait::async_trait]
+impl Protocol for MtDriver {
+    async fn start(&self, _s: Shutdown, initialized: Arc<Barrier>, machine: Arc<Machine>) -> Result<(), StartError> {
+        initialized.wait().await;
+        let sh = self.sh.clone();
+        tokio::spawn(async move {
+            let dns = machine.protocol::<DnsClient>().expect("client machine has DnsClient");
+            let c = sh.case.clone();
+            // phase 1: first resolution of every warm name, one at a time
+            for i in 0..c.warm {
+                let name = c.warm_name(i);
+                let ok = sh.lookup(&dns, &machine, &name).await;
+                sh.log.push(Ev::Note(format!("M first {} {}", name, ok as u8)));
+            }
+            sh.log.push(Ev::Note("M phase2".into()));
+            let mut tasks = vec![];
+            for r in 0..c.readers {
+                let (sh, dns, machine, c) = (sh.clone(), dns.clone(), machine.clone(), c.clone());
+                tasks.push(tokio::spawn(async move {
+                    let mut rng = Rng::new(c.seed ^ (0xead0 + r as u64));
+                    let names: Vec<String> = (0..c.warm).map(|i| c.warm_name(i)).collect();
+                    let mut k = rng.below(c.warm as u64) as usize;
+                    let stride = *rng.pick(&[1usize, 7, 11, 13, 17, 19, 23]);
+                    while !sh.stop.load(Ordering::Relaxed) {
+                        for _ in 0..512 {
+                            k = (k + stride) % names.len();
+                            sh.lookup(&dns, &machine, &names[k]).await;
+                        }
+                        tokio::task::yield_now().await;
+                    }
+                }));
+            }
+            let mut res = vec![];
+            let gate = Arc::new(Barrier::new(c.resolvers));
+            for k in 0..c.resolvers {
+                let (sh, dns, machine, c, gate) = (sh.clone(), dns.clone(), machine.clone(), c.clone(), gate.clone());
+                res.push(tokio::spawn(async move {
+                    let mut round = 0usize;
+                    loop {
+                        let i = if c.lockstep {
+                            // task k resolves names k, k + R, k + 2R, ...; all tasks start each
+                            // round together
+                            let i = round * c.resolvers + k;
+                            if (round + 1) * c.resolvers > c.fresh {
+                                break;
+                            }
+                            gate.wait().await;
+                            // ... and leave the gate within the same few hundred nanoseconds, on
+                            // different threads: spin until everybody is through the barrier
+                            // (bounded: after a while the task yields, so a worker is never held)
+                            let target = (round + 1) * c.resolvers;
+                            sh.arrived.fetch_add(1, Ordering::SeqCst);
+                            let mut spins = 0u32;
+                            while sh.arrived.load(Ordering::Acquire) < target {
+                                std::hint::spin_loop();
+                                spins += 1;
+                                if spins % 50_000 == 0 {
+                                    tokio::task::yield_now().await;
+                                }
+                            }
+                            sh.next_fresh.fetch_add(1, Ordering::SeqCst);
+                            i
+                        } else {
+                            sh.next_fresh.fetch_add(1, Ordering::SeqCst)
+                        };
+                        round += 1;
+                        if i >= c.fresh {
+                            break;
+                        }
+                        let name = c.fresh_name(i);
+                        let ok = sh.lookup(&dns, &machine, &name).await;
+                        sh.log.push(Ev::Note(format!("M first {} {}", name, ok as u8)));
+                        for _ in 0..3 {
+                            sh.lookup(&dns, &machine, &name).await;
+                        }
+                    }
+                }));
+            }
+            for t in res {
+                let _ = t.await;
+            }
+            sh.stop.store(true, Ordering::SeqCst);
+            for t in tasks {
+                let _ = t.await;
+            }
+            sh.log.push(Ev::Note("M end".into()));
+            sh.done.notify_one();
+        });
+        Ok(())
+    }
+    fn demux(&self, _m: Message, _c: Arc<dyn Session>, _k: Control, _ma: Arc<Machine>) -> Result<(), DemuxError> {
+        Ok(())
+    }
+}
+
+fn run_mt_case(line: &str) -> CaseReport {
+    let mut rep = CaseReport::default();
+    let Some(case) = MtCase::parse(line) else {
+        rep.line(line, "bad-case");
+        return rep;
+    };
+    rep.line(case.to_line(), "mt");
+    let machines = vec![
+        MachineSpec { nets: vec![0], arp: false, udp: true, tcp: true, sockets: false, routes: vec![Route { addr: u32::from_be_bytes(client_ip(0)), mask_len: 32, slot: 0, mac: Some(1) }], apps: vec![] },
+        MachineSpec { nets: vec![0], arp: false, udp: true, tcp: true, sockets: false, routes: vec![Route { addr: 0, mask_len: 0, slot: 0, mac: Some(0) }], apps: vec![] },
+    ];
+    let sc = Scenario { nets: vec![NetSpec { mtu: None, lat_us: (case.lat, 0), thr: (0, 0) }], machines, mode: RtMode::MultiThread(case.workers), duration_us: 0 };
+    let shared: Mutex<Option<Arc<MtShared>>> = Mutex::new(None);
+    let extra = |idx: usize, m: Machine, log: &Arc<Log>| -> Machine {
+        if idx == 0 {
+            let srv = DnsServer::new(u16::MAX);
+            for i in 0..case.warm {
+                let n = case.warm_name(i);
+                srv.add_mapping(n.clone(), Ipv4Address::new(case.addr_of(&n)));
+            }
+            for i in 0..case.fresh {
+                let n = case.fresh_name(i);
+                srv.add_mapping(n.clone(), Ipv4Address::new(case.addr_of(&n)));
+            }
+            m.with(SocketAPI::new(Some(Ipv4Address::new(SERVER_ADDR)))).with(srv)
+        } else {
+            let sh = Arc::new(MtShared {
+                case: case.clone(),
+                log: log.clone(),
+                done: Notify::new(),
+                next_fresh: AtomicUsize::new(0),
+                arrived: AtomicUsize::new(0),
+                stop: std::sync::atomic::AtomicBool::new(false),
+                lookups: std::sync::atomic::AtomicU64::new(0),
+                wrong: Mutex::new(vec![]),
+                n_wrong: AtomicUsize::new(0),
+            });
+            *shared.lock().unwrap() = Some(sh.clone());
+            m.with(SocketAPI::new(Some(Ipv4Address::new(client_ip(0))))).with(DnsClient::new()).with(MtDriver { sh })
+        }
+    };
+    let built = build(&sc, None, &extra);
+    let sh = shared.lock().unwrap().clone().expect("client machine built");
+    let log = built.log.clone();
+    let ms = built.machines.clone();
+    let sh2 = sh.clone();
+    let end = block_on_mode(RtMode::MultiThread(case.workers), async move {
+        log.start_clock();
+        tokio::select! {
+            st = elvis_core::run_internet(&ms, None) => RunEnd::Returned(fmt_status(&st)),
+            _ = async {
+                sh2.done.notified().await;
+                tokio::time::sleep(Duration::from_millis(20)).await;
+            } => RunEnd::AllDone,
+            _ = tokio::time::sleep(Duration::from_secs(100)) => RunEnd::Stuck,
+        }
+    });
+    for nw in &built.networks {
+        nw.verif_set_hook(None);
+    }
+    let events = built.log.snapshot();
+    // query frames per name, in log order (the log order of frames and of the `M first` notes is
+    // their real order: both are appended under the log's lock)
+    let mut queries: BTreeMap<String, Vec<usize>> = BTreeMap::new();
+    let mut first_ok: BTreeMap<String, usize> = BTreeMap::new();
+    let mut first_failed = 0u64;
+    for e in &events {
+        match &e.ev {
+            Ev::Wire { to: None, target: Target::Ipv4, bytes, .. } => {
+                if let Some((src, _, _, dp, payload)) = parse_udp(bytes) {
+                    if dp == 53 && src == client_ip(0) {
+                        if let Some((_, qn)) = split_query(&payload) {
+                            queries.entry(String::from_utf8_lossy(&qn).to_string()).or_default().push(e.id);
+                        }
+                    }
+                }
+            }
+            Ev::Note(n) => {
+                let w: Vec<&str> = n.split_whitespace().collect();
+                if let ["M", "first", name, ok] = w.as_slice() {
+                    if *ok == "1" {
+                        first_ok.entry(name.to_string()).or_insert(e.id);
+                    } else {
+                        first_failed += 1;
+                    }
+                }
+            }
+            _ => {}
+        }
+    }
+    let total_lookups = sh.lookups.load(Ordering::SeqCst);
+    rep.count_n("mt.lookups", total_lookups);
+    rep.count_n("mt.names-resolved", first_ok.len() as u64);
+    rep.count_n("mt.query-frames", queries.values().map(|v| v.len() as u64).sum());
+    rep.count(format!("mt.workers.{}", case.workers));
+    let mut ok = true;
+    match &end {
+        RunEnd::AllDone => rep.count("mt.end.all-done"),
+        RunEnd::Returned(s) => {
+            ok = false;
+            rep.fail(format!("the simulation returned ({}) before the client's lookups were through in `{}`", s, case.to_line()), "mt run-returned-early");
+        }
+        RunEnd::Stuck => {
+            ok = false;
+            let started = sh.next_fresh.load(Ordering::SeqCst).min(case.fresh);
+            rep.fail(
+                format!("lookups never completed: {} of {} warm and about {} of {} fresh names resolved after 100 s, {} query frames sent in `{}`", first_ok.keys().filter(|k| k.starts_with('w')).count(), case.warm, started, case.fresh, queries.values().map(|v| v.len()).sum::<usize>(), case.to_line()),
+                "mt lookups-never-complete",
+            );
+        }
+    }
+    // (1) every lookup returned the registered address
+    let n_wrong = sh.n_wrong.load(Ordering::SeqCst);
+    if n_wrong > 0 || first_failed > 0 {
+        ok = false;
+        let w = sh.wrong.lock().unwrap().clone();
+        let (name, got) = w.first().cloned().unwrap_or_default();
+        let after = if first_ok.contains_key(&name) { " although this client had already resolved the name" } else { "" };
+        rep.fail(
+            format!("{} of {} lookups did not return the registered address: e.g. `{}` (registered {}) returned {}{}; in `{}`", n_wrong, total_lookups, name, fmt_ip(case.addr_of(&name)), got, after, case.to_line()),
+            if got.starts_with("err") { "mt lookup-failed-for-registered-name" } else { "mt lookup-wrong-address" },
+        );
+    }
+    // (2) nothing on the wire for a name after its first successful resolution
+    let mut late_frames = 0u64;
+    let mut example: Option<(String, usize, usize, usize)> = None;
+    for (name, first) in &first_ok {
+        let qs = queries.get(name).cloned().unwrap_or_default();
+        let late: Vec<usize> = qs.iter().copied().filter(|q| q > first).collect();
+        if !late.is_empty() {
+            late_frames += late.len() as u64;
+            if example.is_none() {
+                example = Some((name.clone(), qs.len(), *first, late[0]));
+            }
+        }
+    }
+    rep.count_n("mt.query-frames-after-success", late_frames);
+    if let Some((name, n, first, late)) = example {
+        ok = false;
+        let kind = if name.starts_with('w') { "a name resolved before the concurrent phase and looked up repeatedly since" } else { "a name this task had just resolved" };
+        rep.fail(
+            format!(
+                "{} query frames were put on the network for names the client had already resolved: e.g. `{}` ({}) was resolved at log position {} and queried again at position {} ({} query frames for it in all; {} lookups by {} reader and {} resolver tasks on multi_thread({})) in `{}`",
+                late_frames, name, kind, first, late, n, total_lookups, case.readers, case.resolvers, case.workers, case.to_line()
+            ),
+            "mt query-after-successful-resolution",
+        );
+    }
+    if ok {
+        rep.count("oracle.ok");
+    }
+    rep.nontrivial = total_lookups > 1000 && first_ok.len() > case.warm;
+    rep
+}
+
+const RULE_MT: &str = "one client machine and the authoritative server on a real multi_thread runtime (4 / 8 / 16 workers), static MACs, no loss; three of four cases: 48..160 warm names resolved one after the other, then 3..12 reader tasks looking the warm names up in batches of 512 (each a lookup after a successful resolution: cache only) while 2..4 resolver tasks resolve a stream of 150..400 fresh names (each exactly once; every completion inserts into the cache being read) and look each up three more times; every fourth case: 4..6 resolver tasks on 16 workers that leave a spinning gate together before each of 4000..6000 lookups (lookups of one machine beginning within a few hundred nanoseconds on different threads); oracle from the frame log and the returned values only (no clock): every lookup returns the registered address, no query frame for a name after its first successful resolution; non-trivial = more than 1000 lookups and at least one fresh name resolved; distinct = hash of the case line";
+
+fn gen_mt(rng: &mut Rng, i: u64) -> MtCase {
+    if i % 4 == 3 {
+        // lookups of ONE machine that begin within the same few hundred nanoseconds on different
+        // threads (the resolver tasks leave a spinning gate together before every lookup): what
+        // a machine hands out per lookup -- socket, ephemeral port, session -- must be handed out
+        // once.  16 workers, so that the gated tasks (at most 6) never hold all of them.
+        return MtCase {
+            workers: 16,
+            warm: 8,
+            fresh: rng.range(4000, 6000) as usize,
+            readers: 2,
+            resolvers: rng.range(4, 6) as usize,
+            lat: 0,
+            seed: rng.next() % 1_000_000,
+            lockstep: true,
+        };
+    }
+    let workers = [4usize, 8, 16][(i % 3) as usize];
+    MtCase {
+        workers,
+        warm: *rng.pick(&[48usize, 96, 160]),
+        fresh: rng.range(150, 400) as usize,
+        readers: (workers - 1).min(rng.range(3, 12) as usize),
+        resolvers: rng.range(2, 4) as usize,
+        lat: *rng.pick(&[0u64, 0, 200]),
+        seed: rng.next() % 1_000_000,
+        lockstep: false,
+    }
+}
+
+// ------------------------------------------------------------------------------------------
 // parent side
 // ------------------------------------------------------------------------------------------
 
@@ -1115,6 +1518,7 @@ fn site_name(text: &str) -> String {
         ("Ipv4Address::new([rdata[0],rdata[1],rdata[2],rdata[3]])", "panic:index:client_rdata"),
         ("Ok(self.get_mapping(&name).unwrap())", "panic:unwrap:client_get_mapping"),
         ("*self.local_ports.write().unwrap()+=1;", "panic:overflow:ephemeral_port"),
+        ("*next_port+=1;", "panic:overflow:ephemeral_port"),
     ];
     for (k, v) in table {
         if t.contains(k) {
@@ -1156,6 +1560,37 @@ pub fn run(args: &Args) {
         return;
     }
     let mut out = Out::new(&args.out);
+    if args.prop == "c20-mt" {
+        let specs: Vec<String> = if let Some(rp) = &args.replay {
+            read_ops(rp).into_iter().filter(|l| l.starts_with("mt ")).take(1).collect()
+        } else {
+            let mut rng = Rng::new(args.seed ^ 0x20_c20);
+            (0..args.cases).map(|i| gen_mt(&mut rng, i).to_line()).collect()
+        };
+        // real threads: few cases side by side, so that the workers of one case get cores
+        for (i, o) in run_cases(&args.prop, &specs, 2, 2, 150).iter().enumerate() {
+            out.begin_case(i as u64);
+            match o {
+                CaseOutcome::Done(rep) => rep.emit(&mut out),
+                died => {
+                    out.line(&specs[i], "mt");
+                    let (line, ident) = died_ident(died);
+                    let cl = format!("crash {}", line);
+                    out.line(&cl, &cl);
+                    out.mark_nontrivial();
+                    let what = if ident.contains("socket.connect(remote_sock_addr).await.unwrap()") {
+                        format!("the simulation process died while one client resolved registered names from several tasks at once: the socket of a lookup could not be connected ({}); lookups that begin in the same instant on different threads were given the same ephemeral port (case `{}`)", ident, specs[i])
+                    } else {
+                        format!("the simulation process died: {} (case `{}`)", ident, specs[i])
+                    };
+                    out.fail(&what, &ident);
+                }
+            }
+            out.end_case();
+        }
+        out.finish(RULE_MT);
+        return;
+    }
     let mut cases: Vec<Case> = vec![];
     if let Some(rp) = &args.replay {
         let lines = read_ops(rp);
